@@ -25,28 +25,60 @@ fn bad(v: &mut Vec<Violation>, key: &str, msg: String) {
 const PORTS: [u16; 5] = [6379, 26379, 7101, 7102, 7103];
 
 static DIALLED: Mutex<Vec<u16>> = Mutex::new(Vec::new());
-static LISTENERS: OnceLock<Result<(), String>> = OnceLock::new();
+static LISTENERS: OnceLock<Result<Vec<(u16, TcpListener)>, String>> = OnceLock::new();
 
-/// Binds listeners on every candidate address once per process. Each accept
-/// is recorded *before* the connection is closed, so by the time the client
-/// sees the connection fail the record exists.
+/// Binds non-blocking listeners on every candidate address once per process.
+/// Nobody accepts in the background: the harness thread itself accepts (and
+/// immediately closes) pending connections - from a helper task on the same
+/// current-thread runtime while get() runs, and once more after the runtime
+/// has been dropped - so every dial is attributed to the execution that made
+/// it, independent of timing.
 pub fn ensure_listeners() -> Result<(), String> {
     LISTENERS
         .get_or_init(|| {
+            let mut v = Vec::new();
             for p in PORTS {
                 let l = TcpListener::bind(("127.0.0.1", p)).map_err(|e| format!("cannot bind 127.0.0.1:{}: {}", p, e))?;
-                drop(std::thread::Builder::new().name(format!("listen-{}", p)).spawn(move || {
-                    for s in l.incoming() {
-                        if let Ok(s) = s {
-                            DIALLED.lock().unwrap().push(p);
-                            drop(s);
-                        }
-                    }
-                }));
+                l.set_nonblocking(true).map_err(|e| e.to_string())?;
+                v.push((p, l));
             }
-            Ok(())
+            Ok(v)
         })
-        .clone()
+        .as_ref()
+        .map(|_| ())
+        .map_err(|e| e.clone())
+}
+
+/// Accepts and closes everything that is pending; returns how many.
+fn drain() -> usize {
+    let mut n = 0;
+    if let Some(Ok(ls)) = LISTENERS.get() {
+        for (p, l) in ls {
+            while let Ok((s, _)) = l.accept() {
+                DIALLED.lock().unwrap().push(*p);
+                drop(s);
+                n += 1;
+            }
+        }
+    }
+    n
+}
+
+async fn acceptor() {
+    loop {
+        drain();
+        tokio::time::sleep(Duration::from_millis(1)).await;
+    }
+}
+
+/// Runs one get() attempt with the acceptor task alongside.
+fn attempt<F: std::future::Future<Output = ()>>(rt: &tokio::runtime::Runtime, f: F) {
+    rt.block_on(async {
+        let acc = tokio::spawn(acceptor());
+        f.await;
+        acc.abort();
+    });
+    drain();
 }
 
 fn ci(port: u16) -> ConnectionInfo {
@@ -88,6 +120,7 @@ pub fn sweep_flavours() -> Outcome {
         return Outcome { obs: 0, violations: vec![] };
     }
     trace!("flavour {} urls {:?} connections {:?}", flavour, urls, conns.as_ref().map(|v| v.len()));
+    drain();
     DIALLED.lock().unwrap().clear();
     let rt = tokio::runtime::Builder::new_current_thread().enable_all().build().expect("runtime");
     // Result: Err(kind) from builder, or Ok(()) after one get() attempt
@@ -99,7 +132,7 @@ pub fn sweep_flavours() -> Outcome {
                 Err(ConfigError::Redis(_)) => Err("redis".to_string()),
                 Ok(b) => {
                     let pool = b.runtime(Runtime::Tokio1).build().map_err(|e| format!("build:{}", e))?;
-                    rt.block_on(async {
+                    attempt(&rt, async {
                         let _ = pool.get().await;
                     });
                     Ok(())
@@ -113,7 +146,7 @@ pub fn sweep_flavours() -> Outcome {
                 Err(ConfigError::Redis(_)) => Err("redis".to_string()),
                 Ok(b) => {
                     let pool = b.runtime(Runtime::Tokio1).build().map_err(|e| format!("build:{}", e))?;
-                    rt.block_on(async {
+                    attempt(&rt, async {
                         let _ = pool.get().await;
                     });
                     Ok(())
@@ -134,7 +167,7 @@ pub fn sweep_flavours() -> Outcome {
                 Err(ConfigError::Redis(_)) => Err("redis".to_string()),
                 Ok(b) => {
                     let pool = b.runtime(Runtime::Tokio1).build().map_err(|e| format!("build:{}", e))?;
-                    rt.block_on(async {
+                    attempt(&rt, async {
                         let _ = pool.get().await;
                     });
                     Ok(())
@@ -143,6 +176,8 @@ pub fn sweep_flavours() -> Outcome {
         }
     }));
     drop(rt);
+    // connections that completed their handshake but were not accepted yet
+    drain();
     let dialled: BTreeSet<u16> = DIALLED.lock().unwrap().iter().copied().collect();
     let named: BTreeSet<u16> = match (&urls, &conns) {
         (Some(_), None) if u == 1 => [7101].into(),
